@@ -935,5 +935,8 @@ func (g *Gen) strofFn() string {
 func (g *Gen) bytesOf(s string) string {
 	g.w.elemSorts["Int"] = true
 	g.extraDecl("f_bytes", "(declare-fun f_bytes (Str) (Array Int Int))\n(assert (forall ((s Str) (i Int)) (! (= (select (f_bytes s) i) (sat s i)) :pattern ((select (f_bytes s) i)))))")
+	g.strofFn()
+	// string(([]byte)(s)) == s
+	g.extraDecl("f_bytes_rt", "(assert (forall ((s Str)) (! (= (f_strof ((as mk_slc (Slc Int)) (f_bytes s) (slen s))) s) :pattern ((f_bytes s)))))")
 	return "((as mk_slc (Slc Int)) (f_bytes " + s + ") (slen " + s + "))"
 }
